@@ -17,10 +17,11 @@ type vhNode struct {
 	vid   ValueID
 	n     int // elements added so far (next key / tag)
 	count int
+	ti    uint64 // current type id
 }
 
 func vhNewNode(storage SlabStorage, addr Address, isMap bool, ti uint64) *vhNode {
-	nd := &vhNode{isMap: isMap}
+	nd := &vhNode{isMap: isMap, ti: ti}
 	if isMap {
 		nd.m, _ = NewMap(storage, addr, NewDefaultDigesterBuilder(), vTypeInfo{id: ti})
 		nd.vid = nd.m.ValueID()
@@ -81,6 +82,56 @@ func (nd *vhNode) verify(addr Address, ti uint64, what string) {
 	vhAssert(cnt == uint64(nd.count), what+": count")
 }
 
+func (nd *vhNode) setType(ti uint64) error {
+	nd.ti = ti
+	if nd.isMap {
+		return nd.m.SetType(vTypeInfo{id: ti})
+	}
+	return nd.arr.SetType(vTypeInfo{id: ti})
+}
+
+func (nd *vhNode) typeID() uint64 {
+	var t TypeInfo
+	if nd.isMap {
+		t = nd.m.Type()
+	} else {
+		t = nd.arr.Type()
+	}
+	if x, ok := t.(vTypeInfo); ok {
+		return x.id
+	}
+	return 0
+}
+
+// inlinedSize: the size this container would occupy stored inline, computed
+// from its elements (independent of the library's Inlinable); ok=false when it
+// spans several slabs and can never be inline.
+func (nd *vhNode) inlinedSize() (uint32, bool) {
+	if nd.isMap {
+		ds, ok := nd.m.root.(*MapDataSlab)
+		if !ok {
+			return 0, false
+		}
+		return inlinedMapDataSlabPrefixSize + ds.elements.Size(), true
+	}
+	ds, ok := nd.arr.root.(*ArrayDataSlab)
+	if !ok {
+		return 0, false
+	}
+	sum := uint32(0)
+	for _, e := range ds.elements {
+		sum += e.ByteSize()
+	}
+	return inlinedArrayDataSlabPrefixSize + sum, true
+}
+
+func (nd *vhNode) inlined() bool {
+	if nd.isMap {
+		return nd.m.Inlined()
+	}
+	return nd.arr.Inlined()
+}
+
 // lookup re-obtains the child (position/key 1-based) through the parent.
 func (nd *vhNode) lookup(pos int) (Value, error) {
 	if nd.isMap {
@@ -108,12 +159,61 @@ func vhAsNode(v Value, isMap bool) *vhNode {
 	return nd
 }
 
-//vh:prop C10 C06 C09
+// vhStaleGrandOp: a grandchild mutation in the state of known finding F5 (its
+// parent container was restructured through a different handle than the one
+// that attached it). Failures here carry their own label so that they are
+// matched as the known finding and nothing else is.
+func vhStaleGrandOp(err error, visible bool) {
+	vhAssert(err == nil, "alias-stale-index: grandchild mutation after its parent was restructured through another handle")
+	if err == nil {
+		vhAssert(visible, "alias-stale-index: grandchild mutation visible through the parent")
+	}
+	vhReach("kinds-done")
+}
+
+func vhSeenGrand(parent *vhNode, childPos int, childMap bool, grandKey, grandIdx int) *vhNode {
+	pv, err := parent.lookup(childPos)
+	if err != nil {
+		return nil
+	}
+	seen := vhAsNode(pv, childMap)
+	if seen == nil {
+		return nil
+	}
+	gpos := grandKey
+	if !childMap {
+		gpos = grandIdx + 1
+	}
+	gv, err := seen.lookup(gpos)
+	if err != nil {
+		return nil
+	}
+	return vhAsNode(gv, false)
+}
+
+func seenGrandCount(parent *vhNode, childPos int, childMap bool, grandKey, grandIdx int) int {
+	g := vhSeenGrand(parent, childPos, childMap, grandKey, grandIdx)
+	if g == nil {
+		return -1
+	}
+	return int(g.arr.Count())
+}
+
+func seenGrandType(parent *vhNode, childPos int, childMap bool, grandKey, grandIdx int) uint64 {
+	g := vhSeenGrand(parent, childPos, childMap, grandKey, grandIdx)
+	if g == nil {
+		return 0
+	}
+	return g.typeID()
+}
+
+//vh:prop C10 C06 C09 C03
 //vh:param ops 2 3
 func VH_C10_NestedKinds() {
 	vhSetThreshold(256)
 	nops := vhParam("ops", 2)
-	storage := vhNewBasicStorage()
+	logst := &vLogStorage{BasicSlabStorage: vhNewBasicStorage()}
+	storage := logst
 	addr := vhAddr(1)
 	parentMap := vhChoose("parentkind", 2) == 1
 	childMap := vhChoose("childkind", 2) == 1
@@ -127,14 +227,29 @@ func VH_C10_NestedKinds() {
 		vhAssert(parent.add(vElem{tag: 900, size: vhRange32("sibsz", 1, 60)}) == nil, "setup: sibling")
 	}
 	childPos := parent.n + 1
+	// optionally the child already holds an element of any size when it is
+	// attached (so it may be attached as a standalone value)
+	if vhChoose("prefill", 2) == 1 {
+		vhAssert(child.add(vElem{tag: 99, size: vhRange32("csz", 1, 200)}) == nil, "setup: prefill child")
+	}
 	var cv Value = child.value()
+	wrapperSize := uint32(0)
 	if wrapped {
 		cv = vWrapValue{inner: cv, extra: 2}
+		wrapperSize = 2
 	}
 	vhAssert(parent.add(cv) == nil, "setup: attach child")
+	// the per-element limit the parent applies to this child
+	childLimit := maxInlineArrayElementSize - wrapperSize
+	if parentMap {
+		childLimit = maxInlineMapValueSize(vU64(uint64(childPos)).ByteSize()) - wrapperSize
+	}
+	grandKey, grandIdx := 0, -1 // the grandchild's key (map child) / index (array child)
 	if withGrand {
 		grand = vhNewNode(storage, addr, false, 44)
+		grandIdx = child.count
 		vhAssert(child.add(grand.value()) == nil, "setup: attach grandchild")
+		grandKey = child.n
 	}
 	// handle: insertion handle or lookup through the parent
 	h := child
@@ -153,39 +268,64 @@ func VH_C10_NestedKinds() {
 		h = lh
 	}
 	vhAssert(h.vid == child.vid, "setup: handle identity")
-	firstChildElem := 1
-	if withGrand {
-		firstChildElem = 1 // the grandchild is element 1 of the child; keep it
-	}
-	removed := 0
+	removedKeys := map[int]bool{}
+	staleGrand := false
+	childType, grandType := uint64(43), uint64(44)
 	for k := 0; k < nops; k++ {
-		switch vhChoose("op", 4) {
-		case 0: // grow the child
-			vhAssert(h.add(vElem{tag: uint64(100 + k), size: vhRange32("csz", 1, 200)}) == nil, "child add")
-		case 1: // shrink the child (never removes the grandchild)
-			idx := firstChildElem + removed
-			if withGrand {
-				idx++
-			}
-			if idx > h.n {
+		// as if a commit had just happened: everything stored so far is clean
+		snap := vhSnapshotAll(logst)
+		switch vhChoose("op", 6) {
+		case 4: // type change through the child handle (inlined or standalone by solver choice)
+			childType = uint64(50 + k)
+			vhAssert(h.setType(childType) == nil, "child type change")
+		case 5: // type change through the grandchild handle
+			if grand == nil {
 				return
 			}
+			grandType = uint64(60 + k)
+			if staleGrand {
+				vhStaleGrandOp(grand.setType(grandType), seenGrandType(parent, childPos, childMap, grandKey, grandIdx) == grandType)
+				return
+			}
+			vhAssert(grand.setType(grandType) == nil, "grandchild type change")
+		case 0: // grow the child
+			vhAssert(h.add(vElem{tag: uint64(100 + k), size: vhRange32("csz", 1, 200)}) == nil, "child add")
+		case 1: // shrink the child: remove its oldest plain element (never the grandchild)
 			if h.isMap {
-				removed++
-				vhAssert(h.removeFirst(storage, idx) == nil, "child remove")
-			} else {
-				// arrays: remove the element right after the grandchild (or the first)
-				pos := uint64(0)
-				if withGrand {
-					pos = 1
+				// keys are 1..n in insertion order; grandKey is the grandchild's
+				key := 0
+				for c := 1; c <= h.n; c++ {
+					if c != grandKey && !removedKeys[c] {
+						key = c
+						break
+					}
 				}
-				if h.arr.Count() <= pos {
+				if key == 0 {
 					return
 				}
-				s, err := h.arr.Remove(pos)
+				removedKeys[key] = true
+				vhAssert(h.removeFirst(storage, key) == nil, "child remove")
+			} else {
+				pos := 0
+				if grandIdx == 0 {
+					pos = 1
+				}
+				if h.arr.Count() <= uint64(pos) {
+					return
+				}
+				s, err := h.arr.Remove(uint64(pos))
 				vhAssert(err == nil, "child remove")
 				if err == nil {
 					vhDispose(storage, s)
+				}
+				if pos < grandIdx {
+					grandIdx--
+					if h != child {
+						// the grandchild was attached through the insertion handle, whose
+						// position tracking does not see a removal made through ANOTHER
+						// handle to the same container (known finding F5)
+						staleGrand = true
+					}
 				}
 				h.count--
 			}
@@ -193,10 +333,17 @@ func VH_C10_NestedKinds() {
 			if grand == nil {
 				return
 			}
+			if staleGrand {
+				err := grand.add(vElem{tag: uint64(200 + k), size: vhRange32("gsz", 1, 200)})
+				vhStaleGrandOp(err, seenGrandCount(parent, childPos, childMap, grandKey, grandIdx) == grand.count)
+				return
+			}
 			vhAssert(grand.add(vElem{tag: uint64(200 + k), size: vhRange32("gsz", 1, 200)}) == nil, "grandchild add")
 		case 3: // parent gets another element (index shifts / splits around the child)
 			vhAssert(parent.add(vElem{tag: uint64(300 + k), size: vhRange32("psz", 1, 117)}) == nil, "parent add")
 		}
+		// every slab the operation changed was handed to Store (else the next commit loses it)
+		vhCheckDirtyMarks(logst, snap, "nested op: dirty marks")
 		// every ancestor stays valid; the mutation is visible through the parent
 		parent.verify(addr, 42, "parent")
 		pv, err := parent.lookup(childPos)
@@ -211,16 +358,28 @@ func VH_C10_NestedKinds() {
 		}
 		vhAssert(seen.vid == child.vid, "child value id stable")
 		seen.count = h.count
-		seen.verify(addr, 43, "child through parent")
+		// inline exactly when it is one slab that fits the parent's per-element limit
+		if isz, single := h.inlinedSize(); single {
+			vhAssert(h.inlined() == (isz <= childLimit), "child is inline exactly when it fits the per-element limit")
+		} else {
+			vhAssert(!h.inlined(), "multi-slab child is standalone")
+		}
+		vhAssert(seen.typeID() == childType, "child type through parent")
+		seen.verify(addr, childType, "child through parent")
 		if grand != nil {
-			gv, err := seen.lookup(1)
+			gpos := grandKey
+			if !childMap {
+				gpos = grandIdx + 1
+			}
+			gv, err := seen.lookup(gpos)
 			vhAssert(err == nil, "grandchild readable through child")
 			if err == nil {
 				gs := vhAsNode(gv, false)
 				vhAssert(gs != nil && gs.vid == grand.vid, "grandchild identity")
 				if gs != nil {
 					gs.count = grand.count
-					gs.verify(addr, 44, "grandchild through parent")
+					vhAssert(gs.typeID() == grandType, "grandchild type through parent")
+					gs.verify(addr, grandType, "grandchild through parent")
 				}
 			}
 		}
@@ -239,6 +398,6 @@ func VH_C10_NestedKinds() {
 	} else {
 		reach = vhArraySlabCount(storage, root)
 	}
-	vhAssert(vhStorageSlabCount(storage) == reach, "no leaked or dangling slabs")
+	vhAssert(vhStorageSlabCount(logst.BasicSlabStorage) == reach, "no leaked or dangling slabs")
 	vhReach("kinds-done")
 }
